@@ -94,7 +94,8 @@ func optsFor(prop string) GenOpts {
 	case "C07":
 		o.PCOE = 0.15
 	case "C12":
-		o.PEmitters = 0.6 // emitter state is shared between concurrent executions
+		o.PEmitters = 0.6               // emitter state is shared between concurrent executions
+		o.PWrap, o.PFallback = 0.5, 0.3 // wrapped argument expressions read what the task bodies write
 	case "C09":
 	case "C03":
 		o.Wide, o.PParallel = true, 0.6
